@@ -80,13 +80,61 @@ def make_cfgs(ctx, n, flavour):
             cfg["programs"] = cfg["programs"] + [{"name": "P_OGI_again", "methods": ["OGI"]}]
         cfg["_verif_seed"] = seed
         cfgs.append(cfg)
+    # a 1- or 2-day period (first day = last day: upfront, budget and weather on the very first day)
+    seed = ctx.rng.randrange(1 << 30)
+    rng = random.Random(seed)
+    tiny = W.make_config(rng, ndays=rng.choice([1, 2]), start=rng.choice([[2024, 12, 30], [2024, 2, 29], [2023, 1, 1]]),
+                         consider_weather=(flavour == "c08"))
+    # a run without a single emission crashes in the cross-program summaries of the unchanged code
+    # (np.percentile of an empty column; reported to the owner of the summary properties): make sure a
+    # tiny run has pre-period leaks
+    tiny["pre_sim_emissions"] = True
+    tiny["rep"] = dict(tiny["rep"], epr=0.03125, duration=365)
+    tiny["_verif_seed"] = seed
+    cfgs.append(tiny)
+    # pool mode: the same kind of configuration through the process pool (pickled programs / weather /
+    # daylight, two simulations, two programs sharing a method label)
+    if flavour == "c10" or not ctx.quick:
+        seed = ctx.rng.randrange(1 << 30)
+        rng = random.Random(seed)
+        pool = W.make_config(rng, ndays=rng.choice([90, 120]), n_sims=2, consider_weather=(flavour == "c08"))
+        pool["methods"]["OGI"]["cost"]["upfront"] = 512.0
+        pool["methods"]["OGI"]["crew_count"] = 2
+        pool["programs"] = pool["programs"] + [{"name": "P_OGI_again", "methods": ["OGI"]}]
+        pool["_verif_seed"] = seed
+        pool["_mode"] = {"debug": False, "processes": 2}
+        cfgs.append(pool)
     return cfgs
 
 
 def run_cfgs(ctx, cfgs):
     workers = 2 if ctx.quick else 4
     with concurrent.futures.ThreadPoolExecutor(max_workers=workers) as ex:
-        return list(ex.map(lambda c: W.run_config(c, debug=True, processes=1, trace=True), cfgs))
+        def one(c):
+            mode = c.get("_mode", {"debug": True, "processes": 1})
+            return W.run_config(c, debug=mode["debug"], processes=mode["processes"], trace=True)
+
+        return list(ex.map(one, cfgs))
+
+
+def crashed(ctx, cfg, res):
+    """the real simulator exited with an error on a generated configuration: a broken obligation (the
+    other stages keep searching for a failing input); the oracles are still evaluated on whatever
+    per-program outputs and traces the run left behind.  One crash shape of the unchanged code is known
+    and outside C08 / C10 (no emission at all -> np.percentile of an empty column in the cross-program
+    summaries): it is counted and noted, not charged to these properties."""
+    if res.rc == 0:
+        return False
+    empty = all((res.emissions(p["name"], sim) or []) == [] for p in cfg["programs"] for sim in range(cfg["n_sims"]))
+    if empty and "get_nth_percentile" in res.log and "IndexError" in res.log:
+        ctx.count("wholerun:known-crash-empty-emissions-in-summaries")
+        ctx.note("whole run (seed %s) has no emission at all and crashed in the cross-program summaries "
+                 "(known crash of the unchanged code outside this property); per-program outputs evaluated" % cfg["_verif_seed"])
+        return True
+    ctx.broke("whole run of generated configuration (seed %s, mode %s) exits %s" % (
+        cfg["_verif_seed"], cfg.get("_mode", "debug"), res.rc), res.log[-1500:])
+    ctx.count("wholerun:run-failed")
+    return True
 
 
 def _f(x):
@@ -229,6 +277,22 @@ def oracle_c08(ctx, cfg, prog, events, violate):
             violate("C08:wholerun:more-crews-than-available", "more crews deployed than the method has",
                     {"prog": prog, "day": day, "method": method})
     requeue_check(ctx, cfg, prog, events, violate)
+    # nearest weather cell, recomputed from the site's coordinates and the file's axes
+    site_loc = {str(s_["id"]): (s_["lat"], s_["lon"]) for s_ in cfg["sites"]}
+    seen_cells = set()
+    for e in events:
+        if e[0] != "wxcell" or (e[3], e[4], e[5]) in seen_cells:
+            continue
+        seen_cells.add((e[3], e[4], e[5]))
+        (_, day, method, site, li, lj, la, lo, lats, lons) = e
+        cla, clo = site_loc.get(site, (la, lo))
+        ok = (cla, clo) == (la, lo) and 0 <= li < len(lats) and 0 <= lj < len(lons) and \
+            abs(lats[li] - cla) == min(abs(x - cla) for x in lats) and abs(lons[lj] - clo) == min(abs(x - clo) for x in lons)
+        ctx.count("wholerun:weather-cell-checked")
+        if not ok:
+            violate("C08:wholerun:weather-cell-not-nearest", "a site's weather is read at a cell that is not the nearest one to its coordinates",
+                    {"prog": prog, "day": day, "method": method, "site": site, "cell": [li, lj], "site_loc": [cla, clo],
+                     "file_lats": lats, "file_lons": lons})
     return n_visits
 
 
@@ -274,14 +338,22 @@ def run_c08(ctx):
     results = run_cfgs(ctx, cfgs)
     try:
         for cfg, res in zip(cfgs, results):
-            if res.rc != 0:
-                ctx.note("whole run rc=%s for seed %s (skipped): %s" % (res.rc, cfg["_verif_seed"], res.log[-300:].replace("\n", " | ")))
-                ctx.count("wholerun:run-failed")
-                continue
+            crashed(ctx, cfg, res)
+            expected = {(p["name"], sim) for p in cfg["programs"] for sim in range(cfg["n_sims"])}
+            seen = {(tr["prog"], tr["sim"]) for tr in res.trace}
+            if res.rc == 0 and expected - seen:
+                ctx.broke("whole run: no trace for %s" % sorted(expected - seen), "seed %s" % cfg["_verif_seed"])
             for tr in res.trace:
                 def violate(sig, what, info, cfg=cfg):
                     ctx.violate(sig, what, {"wholerun": {"prop": "C08", "cfg": cfg, "where": info}})
-                nv = oracle_c08(ctx, cfg, tr["prog"], tr["events"], violate)
+                try:
+                    nv = oracle_c08(ctx, cfg, tr["prog"], tr["events"], violate)
+                except Exception as e:   # noqa: BLE001  unexpected trace / output shape
+                    import traceback
+
+                    ctx.broke("whole-run oracle C08 could not read the run (seed %s)" % cfg["_verif_seed"],
+                              "%s: %s\n%s" % (type(e).__name__, e, traceback.format_exc()[-800:]))
+                    nv = 0
                 ctx.evaluations += nv
             ctx.traces += 1
             ctx.count("wholerun:configs")
@@ -292,7 +364,8 @@ def run_c08(ctx):
 
 def replay_c08(ctx, inp):
     cfg = inp["wholerun"]["cfg"]
-    res = W.run_config(cfg, debug=True, processes=1, trace=True)
+    mode = cfg.get("_mode", {"debug": True, "processes": 1})
+    res = W.run_config(cfg, debug=mode["debug"], processes=mode["processes"], trace=True)
     try:
         print("whole run rc", res.rc)
         for tr in res.trace:
@@ -459,14 +532,22 @@ def run_c10(ctx):
     results = run_cfgs(ctx, cfgs)
     try:
         for cfg, res in zip(cfgs, results):
-            if res.rc != 0:
-                ctx.note("whole run rc=%s for seed %s (skipped): %s" % (res.rc, cfg["_verif_seed"], res.log[-300:].replace("\n", " | ")))
-                ctx.count("wholerun:run-failed")
-                continue
+            crashed(ctx, cfg, res)
+            expected = {(p["name"], sim) for p in cfg["programs"] for sim in range(cfg["n_sims"])}
+            seen = {(tr["prog"], tr["sim"]) for tr in res.trace}
+            if res.rc == 0 and expected - seen:
+                ctx.broke("whole run: no trace for %s" % sorted(expected - seen), "seed %s" % cfg["_verif_seed"])
             for tr in res.trace:
                 def violate(sig, what, info, cfg=cfg):
                     ctx.violate(sig, what, {"wholerun": {"prop": "C10", "cfg": cfg, "where": info}})
-                ctx.evaluations += oracle_c10(ctx, cfg, res, tr["prog"], tr["sim"], tr["events"], violate)
+                try:
+                    ctx.evaluations += oracle_c10(ctx, cfg, res, tr["prog"], tr["sim"], tr["events"], violate)
+                except Exception as e:   # noqa: BLE001
+                    import traceback
+
+                    ctx.broke("whole-run oracle C10 could not read the run (seed %s)" % cfg["_verif_seed"],
+                              "%s: %s\n%s" % (type(e).__name__, e, traceback.format_exc()[-800:]))
+            ctx.count("wholerun:mode-" + ("pool" if cfg.get("_mode") else "debug"))
             ctx.traces += 1
             ctx.count("wholerun:configs")
     finally:
@@ -476,7 +557,8 @@ def run_c10(ctx):
 
 def replay_c10(ctx, inp):
     cfg = inp["wholerun"]["cfg"]
-    res = W.run_config(cfg, debug=True, processes=1, trace=True)
+    mode = cfg.get("_mode", {"debug": True, "processes": 1})
+    res = W.run_config(cfg, debug=mode["debug"], processes=mode["processes"], trace=True)
     try:
         print("whole run rc", res.rc)
         for tr in res.trace:
